@@ -38,11 +38,12 @@ type mapOp struct {
 }
 
 // mapRes is the observed output. Only the fields that belong to the op kind are meaningful.
-//   Get:    Ok, Val (Val = -1: an object that was never stored by the program)
-//   Add:    Ok
-//   Len:    N
-//   Keys:   Mask (bit k = key k present), Bad (a key outside the universe / of a wrong type / a duplicate)
-//   Values: Vals (sorted), Bad
+//
+//	Get:    Ok, Val (Val = -1: an object that was never stored by the program)
+//	Add:    Ok
+//	Len:    N
+//	Keys:   Mask (bit k = key k present), Bad (a key outside the universe / of a wrong type / a duplicate)
+//	Values: Vals (sorted), Bad
 type mapRes struct {
 	Ok   bool
 	Val  int
